@@ -24,7 +24,11 @@ import (
 	_ "google.golang.org/protobuf/cmd/protoc-gen-go/testdata/proto3"
 	_ "google.golang.org/protobuf/cmd/protoc-gen-go/testdata/protoeditions"
 	"google.golang.org/protobuf/internal/impl"
+	_ "google.golang.org/protobuf/internal/testprotos/editionsfuzztest"
 	_ "google.golang.org/protobuf/internal/testprotos/lazy"
+	_ "google.golang.org/protobuf/internal/testprotos/news"
+	_ "google.golang.org/protobuf/internal/testprotos/order"
+	_ "google.golang.org/protobuf/internal/testprotos/textpbeditions"
 	_ "google.golang.org/protobuf/internal/testprotos/mixed"
 	"google.golang.org/protobuf/runtime/protoiface"
 	_ "google.golang.org/protobuf/internal/testprotos/lazy/lazy_opaque"
@@ -88,6 +92,18 @@ var rootTypes = []string{
 	// several lazy fields in one message, mixed API levels
 	"goproto.proto.test.Open", "goproto.proto.test.Hybrid", "goproto.proto.test.Opaque",
 	"goproto.proto.test.OpenLazy", "goproto.proto.test.HybridLazy", "goproto.proto.test.OpaqueLazy",
+	"goproto.proto.order.Message",
+	"google.golang.org.Article",
+	"goproto.proto.test.TestAllTypesProto2",
+	"goproto.proto.test.TestAllTypesProto2Editions",
+	"goproto.proto.test.TestAllTypesProto3",
+	"goproto.proto.test.TestAllTypesProto3Editions",
+	"pbeditions.Scalars",
+	"pbeditions.ImplicitScalars",
+	"pbeditions.Nests",
+	"pbeditions.Maps",
+	"pbeditions.Repeats",
+	"pbeditions.Requireds",
 	"goproto.protoc.proto2.FieldTestMessage",
 	"goproto.protoc.proto3.FieldTestMessage",
 	"goproto.protoc.protoeditions.FieldTestMessage",
@@ -319,6 +335,9 @@ func runSize(c *C) {
 				}
 				sizeCase(c, r, m, dyn)
 			}
+		}
+		for i := 0; i < per/4+1 && !c.Failed(); i++ {
+			nilValueCase(c, r)
 		}
 		// Size/Marshal after in-place mutations of already-sized nested messages (cached sizes must not go stale)
 		for i := 0; i < per/4+1 && !c.Failed(); i++ {
@@ -583,6 +602,7 @@ func mapDepthCost(desc string, r *Root) bool {
 func decodeCase(c *C, r *Root, b []byte, limit int, discard bool, kinds string) {
 	in := map[string]any{"type": r.Name, "bytes": vh.Hex(b), "limit": limit, "discard": discard}
 	var verdicts []string
+	rawDyn := ""
 	for _, dyn := range []bool{false, true} {
 		for _, lazy := range []bool{false, true} {
 			if dyn && lazy {
@@ -603,6 +623,12 @@ func decodeCase(c *C, r *Root, b []byte, limit int, discard bool, kinds string) 
 					got = "ok " + r.Flat.SnapNorm(m, !dyn)
 				}
 				verdicts = append(verdicts, got)
+				if dyn {
+					rawDyn = got
+					if err == nil {
+						rawDyn = "ok " + r.Flat.Snap(m) // unknown records byte for byte, as the model keeps them
+					}
+				}
 			}()
 		}
 	}
@@ -643,7 +669,10 @@ func decodeCase(c *C, r *Root, b []byte, limit int, discard bool, kinds string) 
 	// … and with the model
 	if c.HasModel() && len(verdicts) > 0 && len(b) < 3000 {
 		ans := c.Ask("dec 0 %d %d %s", limit, b2i(discard), vh.Hex(b))
-		want := verdicts[len(verdicts)-1] // dynamicpb: the reflection path the model mirrors (exact unknown bytes)
+		want := rawDyn // dynamicpb: the reflection path the model mirrors (exact unknown bytes)
+		if want == "" {
+			want = verdicts[len(verdicts)-1]
+		}
 		if strings.HasPrefix(want, "err") && strings.HasPrefix(ans, "err") {
 			// error classes can legitimately differ between the paths only in which of several defects is hit first; compare class
 			c.Compare("dec: error class (dynamicpb vs model)", in, want, ans)
@@ -671,7 +700,7 @@ func panicSig(r *Root, b []byte, dyn bool) string {
 // ---------- C07: merge ----------
 
 func runMerge(c *C) {
-	c.R.Rule = "pairs (a, b) of random messages of one type (b is drawn independently; overlaps are frequent because fields are populated with probability 1/3), about 40 root types x {generated, dynamicpb}: Merge(a,b) vs Unmarshal(Marshal(a)++Marshal(b)) vs UnmarshalOptions{Merge} vs the model's merge and decode. Non-trivial = both messages non-empty; distinct by the two encodings."
+	c.R.Rule = "pairs (a, b) of random messages of one type (b is drawn independently; overlaps are frequent because fields are populated with probability 1/3), about 40 root types x {generated, dynamicpb}: Merge(a,b) vs Unmarshal(Marshal(a)++Marshal(b)) vs UnmarshalOptions{Merge} vs the model's merge and decode; the same with both operands freshly decoded (lazily / eagerly, untouched before the Merge). Non-trivial = both messages non-empty; distinct by the two encodings."
 	rs := roots(c)
 	per := c.N(40, 1500)
 	for _, r := range rs {
@@ -707,6 +736,25 @@ func mergeCase(c *C, r *Root, a, b protoreflect.Message, dyn bool) {
 	into := proto.Clone(a.Interface())
 	err = proto.UnmarshalOptions{AllowPartial: true, Merge: true}.Unmarshal(bb, into)
 	c.Check(err == nil && proto.Equal(merged, into), "UnmarshalOptions{Merge}(b) into a != Merge(a, b)", in, "")
+	// operands that come straight out of a (lazy or eager) decoder and have not been touched: deferred lazy
+	// submessages on either side must be merged like decoded ones
+	for _, mode := range [][2]bool{{true, true}, {true, false}, {false, true}} {
+		da, db := a.New().Interface(), a.New().Interface()
+		if unm(mode[0]).Unmarshal(ba, da) != nil || unm(mode[1]).Unmarshal(bb, db) != nil {
+			continue
+		}
+		proto.Merge(da, db)
+		c.Check(proto.Equal(da, cat), fmt.Sprintf("Merge of freshly decoded operands (dst lazy=%v, src lazy=%v) != Unmarshal(Marshal(a) ++ Marshal(b))", mode[0], mode[1]), in, "")
+		if out, err := partialDet.Marshal(da); err == nil {
+			re := a.New().Interface()
+			c.Check(unm(false).Unmarshal(out, re) == nil && proto.Equal(re, cat), fmt.Sprintf("Marshal after Merge of freshly decoded operands (dst lazy=%v, src lazy=%v) loses content", mode[0], mode[1]), in, "")
+		}
+		dc := a.New().Interface()
+		if unm(mode[0]).Unmarshal(ba, dc) == nil {
+			err := proto.UnmarshalOptions{AllowPartial: true, Merge: true, NoLazyDecoding: !mode[1]}.Unmarshal(bb, dc)
+			c.Check(err == nil && proto.Equal(dc, cat), fmt.Sprintf("UnmarshalOptions{Merge} into a freshly decoded message (dst lazy=%v, lazy=%v) != decoding of the concatenation", mode[0], mode[1]), in, "")
+		}
+	}
 	// src untouched
 	c.Check(r.Flat.Snap(b) == sb, "Merge modified its source", in, "")
 	if c.HasModel() {
